@@ -10,6 +10,8 @@ pub mod c07;
 pub mod c08;
 pub mod c09;
 pub mod c13;
+pub mod c14;
+pub mod c15;
 
 pub fn dispatch(ctx: &mut Ctx) -> bool {
     match ctx.prop.clone().as_str() {
@@ -23,6 +25,8 @@ pub fn dispatch(ctx: &mut Ctx) -> bool {
         "C08" => c08::run(ctx),
         "C09" => c09::run(ctx),
         "C13" => c13::run(ctx),
+        "C14" => c14::run(ctx),
+        "C15" => c15::run(ctx),
         _ => return false,
     }
     true
